@@ -182,10 +182,29 @@ pub fn run(env: &Env) -> i32 {
         let l1 = layout::fixed_layout(&toks, layout::Fixed::OnePerLine);
         check_text("matrix", &prop, &l1, s)
     });
+    if prop == "C06" {
+        // wide contracts: n functions before a constructor (boundaries of small counters)
+        let ns: Vec<usize> = vec![1, 2, 127, 128, 255, 256, 257, 511, 512, 513, 1000];
+        enum_stream(env, &mut st, ns.len() as u64 * 2, |i, s| {
+            let n = ns[(i / 2) as usize];
+            let mut text = String::from("pragma solidity 0.8.17 ;\ncontract Wide {\n");
+            for k in 0..n {
+                text.push_str(&format!("function _g{k} ( ) internal {{ }}\n"));
+            }
+            text.push_str("constructor ( ) { }\n}\n");
+            if i % 2 == 1 {
+                // a second contract whose constructor is correctly placed
+                text.push_str("contract Other {\nconstructor ( ) { }\nfunction h ( ) external payable { }\n}\n");
+            }
+            s.count("wide_contracts");
+            check_text("wide", &prop, &text, s)
+        });
+    }
     // random programs with planted forms; no undecided forms in the detector streams
     let focus = match prop.as_str() {
         "C06" => 1,
         "C08" => 2,
+        "C07" => 3,
         _ => 0,
     };
     let cfg = program::GenCfg { undecided: false, plant: 130, ..Default::default() };
